@@ -14,7 +14,6 @@ os.environ["PDPY11_VERIF"] = "1"
 os.environ.setdefault("PYTHONHASHSEED", "0")
 if sys.path[0] != REPO:
     sys.path.insert(0, REPO)
-sys.setrecursionlimit(3000)
 
 import pdpy11  # noqa: E402
 assert os.path.realpath(pdpy11.__file__).startswith(os.path.realpath(REPO) + os.sep), (pdpy11.__file__, REPO)
